@@ -72,7 +72,7 @@ func (prop) Drive(d *core.Driver) error {
 		srcs = append(srcs, corpus[i])
 	}
 	g := astgen.NewGen(d.Rand("gen"))
-	srcs = append(srcs, g.Generate(d.N(2400, 60000), "gen")...)
+	srcs = append(srcs, g.Generate(d.N(2400, 200000), "gen")...)
 	var cases []core.Case
 	const batch = 12
 	for i := 0; i < len(srcs); i += batch {
